@@ -64,8 +64,23 @@ def make_interp(ctx: Ctx) -> Interp:
     it = Interp(ctx.prog)
     rd = ctx.prog.try_func("deepali.core.math", "round_decimals")
     if rd is not None:
-        # exact arithmetic: rounding to 6/12 decimals is not modelled (stated assumption)
-        it.overrides[rd.key] = lambda interp, args, kwargs: args[0]
+        # exact arithmetic: the *values* of rounding to 6/12 decimals are not modelled (stated assumption) — the body of round_decimals is
+        # still interpreted (torch.round = identity on values, torch's result object), so that what it does to its argument is seen, and
+        # every application is logged with its number of decimals (symt.ROUND_EVENTS): which results get rounded is a structural fact
+        def _round_decimals(interp, args, kwargs, rd=rd):
+            b = dict(zip(rd.pos_params, args))
+            b.update(kwargs)
+            dec = b.get("decimals", 0)
+            if dec:
+                symt.ROUND_EVENTS.append(int(dec))
+            ov = interp.overrides.pop(rd.key)
+            symt.ROUND_EXACT[0] += 1
+            try:
+                return interp.call(rd, *args, **kwargs)
+            finally:
+                symt.ROUND_EXACT[0] -= 1
+                interp.overrides[rd.key] = ov
+        it.overrides[rd.key] = _round_decimals
     return it
 
 
@@ -130,7 +145,7 @@ def run_grid_tables(ctx: Ctx, for_c02: bool = False) -> None:
         "T1.anchor": "documented anchors: index 0 -> origin, (n-1)/2 -> center and cube 0, 0/n-1 -> cube-corners -1/+1, -1/2 / n-1/2 -> cube -1/+1",
         "T1.vectors": "transform(vectors=True) equals the linear part of the point map",
         "T1.transform_vectors": "transform_vectors(v, A, B) = linear part of T[A->B] applied to v (closed-form scale/affine path)",
-        "T1.apply": "apply_transform / transform_points / *_to_* helpers apply exactly T[A->B] (rounding not modelled)",
+        "T1.apply": "apply_transform / transform_points / *_to_* helpers apply exactly T[A->B] (rounding not modelled) and leave the points they were given unchanged (default rounding, explicit decimals, none; identity arms included); default rounding is 12 decimals towards the cubes, 6 towards GRID and none towards WORLD",
         "T1.two-grids": "transform(A, B, to_grid=g2) = g2.T[WORLD->B] o g1.T[A->WORLD]",
         "T1.itk": "GRID->WORLD is p = o + R diag(s) i with o = c - R diag(s) (n-1)/2 (ITK index-to-physical convention); WORLD->GRID its inverse",
     }
@@ -331,7 +346,27 @@ def _grid_obligations_(ctx: Ctx, D: int, ac: bool, for_c02: bool, fractional: bo
             r = it.method(g, "apply_transform", pt, gt.ax[a], gt.ax[b], decimals=None)
             want = apply(gt.T(a, b), pt[0]).unsqueeze(0)
             r2 = it.method(g, "transform_points", pt, gt.ax[a], gt.ax[b])
-            return teq(r, want) and teq(r2, want), f"apply_transform = {tstr(r)} expected {tstr(want)}"
+            if not (teq(r, want) and teq(r2, want)):
+                return False, f"apply_transform = {tstr(r)} expected {tstr(want)}"
+            # the points handed in are still the caller's: with the default rounding of the result, and for the identity arms (which
+            # return the input itself), the input tensor holds the same values after the call
+            for kw in ({}, {"decimals": 3}, {"decimals": None}):
+                p0 = pt.clone()
+                del symt.ROUND_EVENTS[:]
+                it.method(g, "apply_transform", p0, gt.ax[a], gt.ax[b], **kw)
+                if not teq(p0, pt):
+                    return False, f"apply_transform({kw if kw else 'default rounding'}) changed the points it was given: {tstr(p0)[:80]}"
+                # documented rounding policy: by default cube coordinates are rounded to 12 and grid indices to 6 decimals, world
+                # coordinates (whose unit is the user's) are not rounded; an explicit number of decimals is honoured, None suppresses
+                want_ev = ([] if b == "WORLD" else [6] if b == "GRID" else [12]) if not kw else ([] if kw["decimals"] is None else [kw["decimals"]])
+                if list(symt.ROUND_EVENTS) != want_ev:
+                    return False, (f"apply_transform({kw if kw else 'default rounding'}) towards {b}: result rounded to {list(symt.ROUND_EVENTS)} decimals, "
+                                   f"documented: {want_ev}")
+            p0 = pt.clone()
+            it.method(g, "transform_points", p0, gt.ax[a], gt.ax[b])
+            if not teq(p0, pt):
+                return False, f"transform_points changed the points it was given: {tstr(p0)[:80]}"
+            return True, ""
         _guard(ctx, "T1.apply", f"{tag}:{a}->{b}", fA, f"axes={a} to_axes={b} {tag}", ap)
     # *_to_* helpers
     cube = "CUBE_CORNERS" if ac else "CUBE"
@@ -349,8 +384,11 @@ def _grid_obligations_(ctx: Ctx, D: int, ac: bool, for_c02: bool, fractional: bo
             A, B = a or cu, b or cu
             def hp(name=name, A=A, B=B, flag=flag):
                 kw = {} if flag is None else {"align_corners": flag}
-                r = it.method(g, name, pt, **kw)
+                p0 = pt.clone()
+                r = it.method(g, name, p0, **kw)
                 want = apply(gt.T(A, B), pt[0]).unsqueeze(0)
+                if not teq(p0, pt):
+                    return False, f"{name}(align_corners={flag}) changed the points it was given: {tstr(p0)[:80]}"
                 return teq(r, want), f"{name}(align_corners={flag}) = {tstr(r)} expected T[{A}->{B}] = {tstr(want)}"
             _guard(ctx, "T1.apply", f"{tag}:{name}:align_corners={flag}", fh, f"helper={name} align_corners={flag} {tag}", hp)
     # ---- two grids
